@@ -74,6 +74,7 @@ pub fn fuzz_entry(id: &str, lane: &str) -> Option<&'static crate::engine::runner
         ("C16", "concurrent") => Some(&c16::case_conc),
         ("C17", "span-trees") => Some(&c17::case_spans),
         ("C19", "direct-histories") => Some(&c19::case_direct),
+        ("C19", "schedules") => Some(&c19::case_sched),
         ("C20", "schedules") => Some(&c20::case_sched),
         ("C20", "pass-through") => Some(&c20::case_passthrough),
         _ => None,
